@@ -6,17 +6,32 @@ claimed = {
  "C02": ("exploration", "model-differential runtime monitor of the change feed with token-following readers and limit sequences", "3.C02"),
  "C03": ("exploration", "model-differential runtime monitor of relation queries (pair sets, paging, transpose) after every op", "3.C03"),
  "C06": ("exploration", "hub-against-own-past replay monitor: stored current-state answers re-asked as of recorded commit times", "3.C06"),
+ "C04": ("fault_enumeration", "crash injection at every hook-point hit (SIGKILL via verifhook) + timed kills; reopen; all-or-nothing vs op log, raw cross-index invariant scan, post-restart monotonicity", "3.C04"),
+ "C07": ("exploration", "model-differential monitor with dataset incarnations + hub-vs-hub snapshots of unrelated datasets + raw key scan after GC + crash injection inside create/rename/delete", "3.C07"),
+ "C12": ("exploration", "before/after snapshot monitor around compaction (hub-vs-hub), feed subsequence rule, writer placed between snapshot and flush by a hook, crash injection between flushes", "3.C12"),
+ "C14": ("exploration", "snapshot-equality monitor across stop/start after every operation of generated data / dataset / job / security histories", "3.C14"),
+ "C19": ("exploration", "invariant monitor at quiescent points: catalogue vs core.Dataset meta-entities vs model and feed distinct-id counts", "3.C19"),
 }
 texts = {
  "C01": "Held on every generated history explored: after each operation of each history the hub's listing (one call and paged), scoped and unscoped lookups equalled the reference model. Exploration is the right level: the property quantifies over all histories and contents, which only sampling with a strong oracle can approach at run time.",
  "C02": "Held on every generated history explored: full feed, latest-only feed, token-following reads with several limit sequences, since-values beyond the end and persistent readers equalled the model feed after each operation.",
  "C03": "Held on every generated history explored: each (start, predicate|*, direction, scope) query, single-call and paged, equalled the model's pair set and the transpose relation held hub-against-hub.",
+ "C04": "Held on every (history, crash point) pair explored: after SIGKILL at an instrumented boundary (each hit count) or at a PRNG-chosen instant the store reopened, its state equalled the acknowledged ops with or without the whole in-flight op (same choice in every dataset), the six index families were mutually consistent and post-restart writes got fresh positions and ids. Fault enumeration is the right level: the quantifier is over crash points, which are enumerated per history.",
+ "C07": "Held on every generated management history explored (and every crash point inside create/rename/delete that was enumerated): deleted data invisible scoped, unscoped, through a long-lived contextual store, after GC and restart; other datasets' answers unchanged; no key of a deleted incarnation left after GC.",
+ "C12": "Held on every generated history explored: every read answer (current and as-of) equal before and after each compaction, latest-only feed equal as a multiset, full feed = previous minus versions identical to their predecessor; also with a writer committing between snapshot and flush and with kills at every flush boundary.",
+ "C14": "Held on every generated history explored: the complete snapshot (reads, tokens, namespaces, job definitions/states/history, clients, ACLs, providers) was identical across a stop/start after every operation, and writes after the restart matched the model.",
+ "C19": "Held at every quiescent point of every generated history explored: one live meta-entity per dataset with its name, none for deleted / renamed-away names, items counter = distinct ids ever stored.",
  "C06": "Held on every generated history explored: answers recorded at each commit were reproduced by as-of queries at instants inside [T_k, T_k+1) after later writes; paged queries continued across writes added up to the set as of their first page.",
 }
 notes = {
  "C01": "Trusted: the reference model (harness/model), the canonicaliser (harness/obs), Go-API level (parser + StoreEntities / ExecuteTransaction). Only histories the seeded generator produces are covered.",
  "C02": "Trusted: reference model and canonicaliser. Readers are stepped between writes, not concurrently with them (concurrency is C05).",
  "C03": "Trusted: reference model written from the statement; ids and predicates from a small pool; bodies of related entities are not compared here (C06 does).",
+ "C04": "Process kill, not power loss (the hub runs badger with SyncWrites=false). Trusted: reference model, raw-key layout knowledge in the scanner, hook placement (MANIFEST.hooks). Instants between hook points only via timed kills.",
+ "C07": "Trusted: reference model with incarnations; hub-vs-hub snapshots use incoming queries only outside the open C03 findings. Concurrency of management ops with writers is C05's.",
+ "C12": "Trusted: legacy duplicates are injected by raw keys laid out like StoreEntities does; racing writers are placed at the compact.beforeFlush hook (one placement per compaction), not at arbitrary instants.",
+ "C14": "In-process restarts (scheduler stopped, store closed, all services re-assembled); the web layer and metrics are not part of the snapshot.",
+ "C19": "Sequential histories (every op boundary is quiescent); concurrent counter updates are exercised by the C05 workload.",
  "C06": "Trusted: commit times are read back from the `recorded` field; an op that commits nothing creates no instant; maintenance ops are excluded per the statement.",
 }
 props=[json.loads(l) for l in open('/verif/properties.jsonl')]
